@@ -502,7 +502,7 @@ def run(ctx):
         'at least one direction (the hypothesis of "eq implies equal hash" is exercised); distinct = distinct implementation transcripts.')
     ctx.assumptions += [
         'C text tied by correspondence only: extracted Gallina model (HashModel.v) vs the library built from the working tree; '
-        'constants and code shapes of hash_data / Int_Hash / Float_Hash / Float_Cmp / Table_Cmp / the XOR folds re-extracted into Generated.v',
+        'constants and shapes of hash_data (tail shape), Int_Hash, Float_Hash (shape), Float_Cmp (form), memswap (loop plan), Table_Cmp, the XOR folds re-extracted into Generated.v; the theorems hold for every admissible shape',
         'NaN is excluded (Float_Cmp returns 0 whenever an operand is NaN, so eq(NaN, x) holds for every x)',
         'allocation class and address independence are carried by the correspondence (a functional model has no addresses)',
         'Tree_Cmp(tree, table) (walk of the table in slot order) is not modelled at value level; only eq(table, tree) is demanded there',
